@@ -611,3 +611,61 @@ func init() {
 		return sc, ex
 	}})
 }
+
+// ---------------------------------------------------------------- C17, second and third sentence, statement level
+
+// checkMetadataHistoryReads: a read of accounts or transactions at a point in time consults the metadata history
+// when - and only when - the ledger keeps one (ACCOUNT_METADATA_HISTORY / TRANSACTION_METADATA_HISTORY = SYNC).
+// Judged on the tables the statements of the read reference; what PostgreSQL returns for them is not evaluated.
+func checkMetadataHistoryReads(r *runner) []Violation {
+	var vs []Violation
+	for _, or := range r.results {
+		if or.Op.Kind != KRaw || or.Op.Raw == nil || or.Op.Raw.Method != "GET" || !strings.Contains(or.Op.Raw.Path, "pit=") {
+			continue
+		}
+		path, _, _ := strings.Cut(or.Op.Raw.Path, "?")
+		parts := strings.Split(strings.Trim(path, "/"), "/")
+		if len(parts) < 3 || parts[0] != "v2" {
+			continue
+		}
+		var feature, table string
+		switch parts[2] {
+		case "transactions":
+			feature, table = "TRANSACTION_METADATA_HISTORY", "transactions_metadata"
+		case "accounts":
+			feature, table = "ACCOUNT_METADATA_HISTORY", "accounts_metadata"
+		default:
+			continue
+		}
+		r.w.mu.Lock()
+		tabs := r.w.readTables[or.Op.ID]
+		_, refused := r.w.refusals[or.Op.ID]
+		r.w.mu.Unlock()
+		if len(tabs) == 0 || refused || !tabs[parts[2]] {
+			continue // the read never reached the main listing statement (refused, not found, model-served)
+		}
+		feats := r.featuresOf(or.Op.Ledger)
+		val := feats[feature]
+		if val == "" {
+			val = "SYNC" // the default
+		}
+		switch {
+		case val == "SYNC" && !tabs[table]:
+			vs = append(vs, Violation{r.sc.Property, "a-read-at-a-point-in-time-consults-the-metadata-history", fmt.Sprintf("%s GET %s on ledger %s, whose %s is SYNC, referenced only %v: the metadata it returns is the current one, not the metadata at that time", or.Op.ID, or.Op.Raw.Path, or.Op.Ledger, feature, sortedKeys(tabs))})
+		case val != "SYNC" && tabs[table]:
+			vs = append(vs, Violation{r.sc.Property, "metadata-history-is-only-read-where-it-is-kept", fmt.Sprintf("%s GET %s on ledger %s, whose %s is %q, referenced %v: nothing fills %s for that ledger [%s %s]", or.Op.ID, or.Op.Raw.Path, or.Op.Ledger, feature, val, sortedKeys(tabs), table, parts[2], feature)})
+		}
+	}
+	return vs
+}
+
+func init() {
+	// C17, history sentences: the C35 scenario (two ledgers with independently drawn features, the same history of
+	// creates, metadata saves and deletes, then reads with and without a point in time), judged for where the
+	// point-in-time reads take their metadata from.
+	register(Profile{Property: "C17", Name: "history-reads", Gen: func(r *RNG, seed uint64, tier string) (*Scenario, *ExploreCfg) {
+		sc, ex := profiles["C35"][0].Gen(r, seed, tier)
+		sc.Property, sc.Profile, sc.Checks = "C17", "history-reads", []string{"metadata-history-reads", "current-metadata"}
+		return sc, ex
+	}})
+}
